@@ -28,7 +28,7 @@ def model_check(ctx, shape, max_env, flagsets="CoreFlagSets", env="AllEnv", faul
     d = ctx.spec_dir()
     inv = invariants or ["TypeInv", "KeyImpliesCert", "ConvergedAfterDefault", "Idempotent", "DefaultRunCompletes", "NoRefreshWithoutHash"]
     props = properties if properties is not None else ["KeysKept", "WriteErrIsFailure", "ChainOnRun"]
-    alt = alt or ("%sAlt" % SHAPES[shape] if env in ("IssuerEnv", "FullEnv") else "NoAlt")
+    alt = alt or ("%sAlt" % SHAPES[shape] if env in ("IssuerEnv", "FullEnv", "ConfigEnv", "EverythingEnv") else "NoAlt")
     name = "MCRepo_%s_%d_%s_%s.cfg" % (shape, max_env, flagsets, env)
     with open(os.path.join(d, name), "w") as f:
         f.write('CONSTANTS\n  Ents = {"r", "s", "l"}\n  Parent <- %sParent\n  AltParents <- %s\n  Contents = %s\n  FlagSets <- %s\n'
